@@ -41,6 +41,46 @@ CLAIMED = {
              'bounded native refutation search which can only produce counterexamples.',
         technique='contract-based deductive verification (pyvc + z3), quantified counting invariants',
         design_ref='DESIGN.md 7 C04'),
+    'C06': dict(
+        text='Deductive verification of Application.dispatch against fold specifications of the dispatch state (loop '
+             'invariant + loop postcondition, every table length): routes before the answering one did not answer, the '
+             'answering one matches and admits the method, a plain Response is returned as is, and when no route answers '
+             'the result renders the most recent non-breaking error, else a 405 whose Allow set is the union of the '
+             'methods of path-matching routes, else 404; plus contracts on match_method, Route.__init__ (upper-casing, '
+             'GET implies HEAD, unknown methods rejected), NullRoute.handle_sentinel_condition, '
+             'MethodNotAllowed.__init__ (Allow header) and Application.add (order).',
+        note='The outcome of executing a route is an uninterpreted function of the route within one request; the '
+             'built-in catch-all route is summarised by the verified contract of handle_sentinel_condition composed '
+             'with the injection contracts (C01/C02); pattern matching itself is C05; Werkzeug request attributes assumed.',
+        technique='contract-based deductive verification (pyvc + z3): loop invariant/postcondition over recursive '
+                  'fold specs; native replay of counter-models',
+        design_ref='DESIGN.md 7 C06'),
+    'C07': dict(
+        text='Deductive verification of normalize_path against its segment specification (split/join axioms) and of '
+             'the redirect clause of dispatch: a redirect is issued exactly by a matching, method-admitting branch route '
+             'in redirect mode whose path is not canonical, and its Location is root + quoted canonical path + the query '
+             'only when present (postcondition taken from the statement).',
+        note='A-str (split/join), A-wz-url (url_quote round trip, redirect() sets Location) assumed; idempotence / '
+             'one-hop are covered by the functional form of the canonical path plus a bounded native search used only '
+             'for counterexamples.',
+        technique='contract-based deductive verification (pyvc + z3)', design_ref='DESIGN.md 7 C07'),
+    'C08': dict(
+        text='Deductive verification of the exceptional control flow of Application.dispatch: on every path (any value or '
+             'any Exception from application code at every call) the result is a BaseResponse, and an exception leaves '
+             'dispatch only if it is a RerouteWSGI or the error handler re-raises; error-renderer failure falls back to '
+             'the default rendering.',
+        note='error-type constructors and ExceptionInfo assumed total; user render_error functions return Responses; '
+             'per-request state on self is excluded by the frame obligations of C12.',
+        technique='contract-based deductive verification (pyvc + z3), exhaustive path enumeration of try/except',
+        design_ref='DESIGN.md 7 C08'),
+    'C11': dict(
+        text='Deductive verification of Application.add: the new routes are inserted contiguously and in order at the '
+             'position list.insert would use for the first one, every other route keeps its relative order (loop '
+             'invariant in decomposition form), and any failure before the first insertion leaves the table unchanged '
+             '(exceptional postcondition).',
+        note='binding itself (cast_to_route_factory / bind / bind_all) is summarised as returning fresh bound routes or '
+             'raising; frames of BoundRoute.__init__ and module-state scan are listed under coverage.notes when present.',
+        technique='contract-based deductive verification (pyvc + z3)', design_ref='DESIGN.md 7 C11'),
 }
 
 REASONS = {}
